@@ -6,10 +6,14 @@ Domain : recursive patterns (scalars, regex, lists, sets, dicts; depth <= 3) x p
          and flow references.  Regex leaves come from two pools: patterns that consume text and patterns that are
          found with an EMPTY span (look-arounds, bare anchors, `x*` in front of a non-x).  The flow may have executed
          a `priority p` statement (p in {0.0, 0.1, 0.5, 1.0}) before the judged match statement.
+         One scalar in four (every depth, top level of a parameter included) is a string over an alphabet with backslash, tab,
+         newline, both quote characters and non-ASCII characters; the case holds the VALUE, case["style"] chooses how the
+         statement SPELLS it (quote character, escape sequences); payloads include the un-decoded spelling as non-matching control.
 Oracle : an independent recursive matcher written from the property text / the language reference.
          Verdict is compared with "does `Hit` appear in the outgoing events".
 """
 import re
+import warnings
 
 from hypothesis import strategies as st
 
@@ -20,18 +24,28 @@ PID = "C04"
 LEVEL = "exploration"
 CASE_TIMEOUT = 30
 RULE = (
-    "pattern P drawn recursively from scalars {None,bool,int>=2,non-integral float,str}, regex pool (half of the regex leaves "
+    "pattern P drawn recursively from scalars {None,bool,int>=2,non-integral float,str; one scalar in four - at every depth, the top level of a parameter "
+    "included, also in payloads, inserted/altered elements and unmentioned parameters - is a string over the alphabet {a, b, t, n, space, TAB, NEWLINE, backslash, \", ', e-acute, euro sign} "
+    "(pool of 15 fixed strings or 1-4 random characters)}. The case holds the string VALUE; case.style (quote character \" or ', escape the other quote too, non-ASCII as \\uXXXX or raw, "
+    "tab as \\t or raw) decides how the statement SPELLS every string: backslash as \\\\, the quote as \\q, newline as \\n (Python literal rules). Regex pool (half of the regex leaves "
     "are patterns that consume text, half are patterns found with an EMPTY span: look-ahead/look-behind only, bare anchors ^ $ \\b \\B, "
     "x* / \\d* / the empty pattern in front of a non-matching character - each with a non-empty witness and, where one exists, a non-witness), list, set (hashable "
     "members), dict(str keys), depth<=3, <=4 children; payload V = witness(P) with 0-3 structural mutations (insert/drop/"
-    "swap/alter-leaf/retype/replace-subtree) or an independent value; program `match Ev(p=P[,q=Q])` then `send Hit()`; the event "
+    "swap/alter-leaf/retype/replace-subtree) or an independent value; a string leaf of the payload that has spelling near-misses is, in two mutations of three that hit it, "
+    "replaced by one of them: its UN-DECODED source spelling under the case's or another style (kind 'undecoded': backslash+t instead of TAB, two backslashes instead of one), the value decoded once more, "
+    "or a neighbour (TAB->space/t, backslash doubled/dropped, one quote character for the other, e-acute->e) (kind 'alter-escape'); program `match Ev(p=P[,q=Q])` then `send Hit()`; the event "
     "carries 0-2 unmentioned parameters; in half of the cases the pattern is held in flow variables, in half the statement captures the event (`as $ref`) inside a loop and judges a second, different payload. In one case of six the pattern is matched against the start arguments of an action instance (`match XAction(p=P).Finished()` on the Finished event of an action started with those arguments). Plus a small exhaustive table over leaves {2,'a'} depth<=2 and instance cases "
     "($ref.Finished() of action/flow instances), plus the table regex pool x value pool (all witnesses/non-witnesses, '', numbers) in three shapes "
-    "(bare, inside a longer list, inside a larger dict). In half of all generated cases (every form) and in a slice of the enumerated ones the flow executes `priority p`, "
+    "(bare, inside a longer list, inside a larger dict), plus the string table: 15 pool strings x 6 spelling styles x (the value, <=5 spelling near-misses) in four shapes (whole parameter, inside a longer list, "
+    "a larger dict, a larger set), statement forms rotating (literal / variable + loop with capture / action start arguments). In half of all generated cases (every form) and in a slice of the enumerated ones the flow executes `priority p`, "
     "p in {0.0, 0.1, 0.5, 1.0}, directly before the judged match statement (single flow, no competitor: the priority only ranks competing matches). Non-trivial = pattern nesting depth >= 2, or a payload obtained by a "
-    "drop/swap/retype mutation (fewer elements, reordered, different container); distinct by (pattern, payload)."
+    "drop/swap/retype mutation (fewer elements, reordered, different container), or a pattern with a string leaf whose source spelling differs from its value (labels escaped-string, "
+    "escaped-string-top-level / -nested-only, single-quoted / double-quoted); distinct by (pattern, payload)."
 )
 ASSUMPTIONS = [
+    "a string literal in a statement denotes the text obtained by the Python string-literal rules (\\t TAB, \\n newline, \\\\ one backslash, \\\" and \\' the quote, \\uXXXX the code point, either quote "
+    "character delimits): Colang 2 expressions are evaluated as Python expressions (language reference, 'Working with Variables & Expressions'); 'equal scalars' compares that text with the event's string",
+    "strings never contain { } $ or # (string interpolation, variable references and comments are other properties' business)",
     "numerically equal values of different numeric types (1 vs True vs 1.0) are never generated: the text does not specify them",
     "list patterns follow the property text ('expected list items found in order'), not the stricter 'same position' wording of the docs",
     "dict keys return_value/activated/source_flow_instance_uid (filtered by the interpreter) are never used as keys",
@@ -70,6 +84,83 @@ ZW = {p for p, _, _ in REGEX_ZW}
 PRIORITIES = [0.0, 0.1, 0.5, 1.0]
 
 SCALARS = [None, True, False, 2, 3, 7, 2.5, 0.75, "a", "b", "ab", ""]
+
+# strings whose SOURCE SPELLING differs from their value: the statement writes them with escape sequences
+# (Colang string literals follow the Python rules: backslash-t is a tab, two backslashes are one backslash, backslash-u00e9 is e-acute).
+# The case holds the VALUE (decoded text); the spelling is chosen by case["style"] and produced by lit()/str_body().
+ESC_ALPHABET = ["a", "b", " ", "\t", "\n", "\\", '"', "'", "\u00e9", "\u20ac", "t", "n"]
+ESC_STRINGS = ["a\tb", "a\nb", "C:\\temp", "it's", 'say "x"', "caf\u00e9", "\\", "a\\", "\t", "x\\ty", '"', "'", "a b", "\\\\n", "5\u20ac\n"]
+STYLES = [
+    {"q": '"', "oq": False, "uni": False, "rawtab": False},
+    {"q": "'", "oq": False, "uni": False, "rawtab": False},
+    {"q": '"', "oq": True, "uni": True, "rawtab": False},
+    {"q": "'", "oq": True, "uni": True, "rawtab": True},
+    {"q": '"', "oq": False, "uni": True, "rawtab": True},
+    {"q": "'", "oq": True, "uni": False, "rawtab": False},
+]
+DEFAULT_STYLE = STYLES[0]
+
+
+def str_body(v, style=None):
+    """Source spelling of the string v between its quotes (what a reader sees in the statement)."""
+    style = style or DEFAULT_STYLE
+    q = style.get("q", '"')
+    out = []
+    for ch in v:
+        if ch == "\\":
+            out.append("\\\\")
+        elif ch == q or (ch in "\"'" and style.get("oq")):
+            out.append("\\" + ch)
+        elif ch == "\n":
+            out.append("\\n")
+        elif ch == "\r":
+            out.append("\\r")
+        elif ch == "\t":
+            out.append("\t" if style.get("rawtab") else "\\t")
+        elif ord(ch) < 32 or ord(ch) == 127:
+            out.append("\\x%02x" % ord(ch))
+        elif ord(ch) > 126 and style.get("uni"):
+            out.append("\\u%04x" % ord(ch) if ord(ch) < 0x10000 else "\\U%08x" % ord(ch))
+        else:
+            out.append(ch)
+    return "".join(out)
+
+
+def lit(v, style=None):
+    """Render a case-encoded value as a Colang 2 literal; strings in the spelling chosen by the case (quote character,
+    escape sequences for backslash / quotes / tab / newline / non-ASCII characters). With the default style and strings
+    without special characters this is smh.lit."""
+    if is_rx(v):
+        return "regex(%s)" % lit(v["__regex__"], style)
+    if is_set(v):
+        items = v["__set__"]
+        if not items:
+            return "set()"
+        return "{" + ", ".join(lit(x, style) for x in items) + "}"
+    if isinstance(v, str):
+        q = (style or DEFAULT_STYLE).get("q", '"')
+        return q + str_body(v, style) + q
+    if isinstance(v, list):
+        return "[" + ", ".join(lit(x, style) for x in v) + "]"
+    if isinstance(v, dict):
+        return "{" + ", ".join(f"{lit(k, style)}: {lit(x, style)}" for k, x in v.items()) + "}"
+    return smh.lit(v)
+
+
+def escaped_leaves(x, style=None, top=True):
+    """(number of string leaves of the pattern whose source spelling differs from their value, is one of them a whole parameter)."""
+    if is_rx(x):
+        return 0, False
+    if isinstance(x, str):
+        e = str_body(x, style) != x
+        return int(e), e and top
+    if is_set(x):
+        return sum(escaped_leaves(i, style, False)[0] for i in x["__set__"]), False
+    if isinstance(x, list):
+        return sum(escaped_leaves(i, style, False)[0] for i in x), False
+    if isinstance(x, dict):
+        return sum(escaped_leaves(i, style, False)[0] for i in x.values()), False
+    return 0, False
 
 
 def budget(tier):
@@ -155,7 +246,10 @@ def depth(x):
 # ---------------------------------------------------------------------------------------------
 # generators
 
-scalar = st.sampled_from(SCALARS)
+esc_string = st.one_of(st.sampled_from(ESC_STRINGS), st.lists(st.sampled_from(ESC_ALPHABET), min_size=1, max_size=4).map("".join))
+# one scalar in four (at every depth, in patterns, payloads, mutations and unmentioned parameters) is a string over the escape alphabet
+scalar = st.one_of(st.sampled_from(SCALARS), st.sampled_from(SCALARS), st.sampled_from(SCALARS), esc_string)
+style_st = st.fixed_dictionaries({"q": st.sampled_from(['"', "'"]), "oq": st.booleans(), "uni": st.booleans(), "rawtab": st.sampled_from([False, False, True])})
 regex = st.one_of(st.sampled_from([{"__regex__": p} for p, _, _ in REGEX]), st.sampled_from([{"__regex__": p} for p, _, _ in REGEX_ZW]))
 priority = st.one_of(st.none(), st.sampled_from(PRIORITIES))  # `priority p` executed before the judged match statement
 hashable_leaf = st.one_of(scalar, regex)
@@ -238,8 +332,42 @@ def _hashable(x):
     return not isinstance(x, (list, dict))
 
 
+def spelling_variants(s, style=None):
+    """Near misses of a string VALUE: [(other value, kind)] - its un-decoded source spelling(s) ('undecoded': the text between
+    the quotes of the statement, e.g. backslash + t for a tab), the value decoded once more, and values in which the escaped
+    character is replaced by a neighbour (tab -> space, one backslash -> two / none, one quote character -> the other ...)."""
+    out = []
+    body = str_body(s, style)
+    if body != s:
+        out.append((body, "undecoded"))
+    for other in STYLES:
+        b = str_body(s, other)
+        if b != s and b != body and (b, "undecoded") not in out:
+            out.append((b, "undecoded"))
+            break
+    if "\\" in s and s.isascii():
+        try:
+            with warnings.catch_warnings():
+                warnings.simplefilter("ignore")
+                again = s.encode("ascii").decode("unicode_escape")
+            if again != s:
+                out.append((again, "alter-escape"))
+        except (UnicodeDecodeError, ValueError):
+            pass
+    for a, bs in (("\t", [" ", "t"]), ("\n", [" ", "n"]), ("\\", ["\\\\", "", "/"]), ('"', ["'"]), ("'", ['"']), ("\u00e9", ["e"]), ("\u20ac", ["u20ac"])):
+        if a in s:
+            for b in bs:
+                out.append((s.replace(a, b), "alter-escape"))
+    seen, res = {s}, []
+    for v, k in out:
+        if v not in seen:
+            seen.add(v)
+            res.append((v, k))
+    return res
+
+
 @st.composite
-def mutate(draw, V):
+def mutate(draw, V, style=None):
     """One structural mutation; returns (V', kind)."""
     paths = _paths(V)
     path = draw(st.sampled_from(paths))
@@ -288,6 +416,11 @@ def mutate(draw, V):
             return _set(V, path, list(d.values())), "retype"
         return V, "none"
     # scalar leaf
+    if isinstance(sub, str):
+        variants = spelling_variants(sub, style)
+        if variants and draw(st.integers(0, 2)) > 0:
+            new, kind = draw(st.sampled_from(variants))
+            return _set(V, path, new), kind
     new = draw(scalar)
     if in_set or draw(st.integers(0, 3)) > 0:
         return _set(V, path, new), "alter"
@@ -302,6 +435,7 @@ def _case(draw):
         return {"form": form, "which": draw(st.integers(0, 2)), "target": target, "n": 3, "with_args": draw(st.booleans()), "event": draw(st.sampled_from(["Finished", "Started"])), "priority": draw(priority)}
     via_action = draw(st.integers(0, 5)) == 0  # the pattern is matched against the START ARGUMENTS of an action instance
     nparams = draw(st.integers(1, 2))
+    style = draw(style_st)  # how the statement spells its strings (quote character, escape sequences)
     pats, pay, kinds = {}, {}, []
     for name in ["p", "q"][:nparams]:
         P = draw(pattern(draw(st.sampled_from([0, 1, 2, 2, 3, 3]))))
@@ -315,7 +449,7 @@ def _case(draw):
                 V = RX[P["__regex__"]][1]
                 kinds.append("regex-nonwitness")
             for _ in range(draw(st.sampled_from([0, 0, 0, 1, 1, 1, 2, 3]))):
-                V, k = draw(mutate(V))
+                V, k = draw(mutate(V, style))
                 kinds.append(k)
         pats[name] = P
         if draw(st.sampled_from([0] + [1] * 19)) == 0:
@@ -323,7 +457,7 @@ def _case(draw):
         else:
             pay[name] = V
     extra = draw(st.dictionaries(st.sampled_from(["x", "y"]), scalar, max_size=2))
-    case = {"form": "param", "pattern": pats, "payload": pay, "extra": extra, "mut": kinds, "priority": draw(priority)}
+    case = {"form": "param", "pattern": pats, "payload": pay, "extra": extra, "mut": kinds, "priority": draw(priority), "style": style}
     if via_action:
         case["form"] = "action_args"
         return case
@@ -335,7 +469,7 @@ def _case(draw):
         for name, P in pats.items():
             V = witness(P)
             for _ in range(draw(st.sampled_from([0, 0, 1, 2]))):
-                V, _k = draw(mutate(V))
+                V, _k = draw(mutate(V, style))
             pay2[name] = V
         case["second"] = {"payload": pay2, "extra": draw(st.dictionaries(st.sampled_from(["x", "z"]), scalar, max_size=2))}
     return case
@@ -379,6 +513,21 @@ def enumerate_cases(tier):
             n += 1
             for shape, (P, V) in enumerate(((rx, v), (["a", rx], ["0", "a", v, 7]), ({"k1": rx}, {"k1": v, "k2": 2}))):
                 yield {"form": "param", "pattern": {"p": P}, "payload": {"p": V}, "extra": {}, "mut": ["regex-table"], "priority": ([None, None] + PRIORITIES)[(n + 2 * shape) % 6]}
+    # string table: every pool string x every spelling style x (its value, its un-decoded spelling(s), near misses), the string as
+    # the whole parameter, inside a longer list, inside a larger dict, inside a larger set; statement forms rotate
+    n = 0
+    for s in ESC_STRINGS:
+        for style in STYLES:
+            for v in [s] + [v for v, _ in spelling_variants(s, style)][:5]:
+                shapes = ((s, v), (["a", s], ["0", "a", v, 7]), ({"k1": s}, {"k1": v, "k2": 2}), ({"__set__": [s]}, {"__set__": _uniq([v, 2])}))
+                for shape, (P, V) in enumerate(shapes):
+                    n += 1
+                    base = {"pattern": {"p": P}, "payload": {"p": V}, "extra": {}, "mut": ["string-table"], "style": style, "priority": ([None] * 4 + PRIORITIES)[n % 8]}
+                    yield dict(base, form="param")
+                    if n % 3 == 0:
+                        yield dict(base, form="param", via_var=True, second={"payload": {"p": s if v != s else str_body(s, style)}, "extra": {}})
+                    elif n % 3 == 1:
+                        yield dict(base, form="action_args")
     # priority table: a few (P, V) pairs of every container kind, matching and not, under every priority, in every statement form
     pv = [
         ("a", "a"), ("a", "b"), ([2, "a"], [3, 2, "a"]), ([2, "a"], ["a", 2]), ({"__set__": [2]}, {"__set__": [2, "a"]}), ({"__set__": [2, "a"]}, {"__set__": [2]}),
@@ -456,21 +605,36 @@ def _instance_case(case):
     return ok(nt=True, labels=[case["form"], lab] + prio_labels, view=case)
 
 
+def _string_labels(case):
+    """Share of the string-spelling dimension: patterns with string leaves written with escape sequences (at the top level of a
+    parameter / nested), the quote character of the statement."""
+    style = case.get("style")
+    found = [escaped_leaves(P, style) for P in case["pattern"].values()]
+    out = []
+    if any(n for n, _ in found):
+        out.append("escaped-string")
+        out.append("escaped-string-top-level" if any(top for _, top in found) else "escaped-string-nested-only")
+    if style is not None:
+        out.append("single-quoted" if style.get("q") == "'" else "double-quoted")
+    return out
+
+
 def _action_args_case(case):
     """`match XAction(p=P).Finished()` refers to the action instances whose start arguments match P."""
     pats, pay = case["pattern"], dict(case["payload"])
     pay.update(case["extra"])
+    style = case.get("style")
     try:
         expected = all(k in pay and ref_match(P, pay[k]) for k, P in pats.items())
     except Unspecified:
         return ok(skip="unspecified: regex vs bool/None")
     try:
-        start_args = ", ".join(f"{k}={smh.lit(v)}" for k, v in pay.items())
+        start_args = ", ".join(f"{k}={lit(v, style)}" for k, v in pay.items())
     except TypeError:
         return ok(skip="payload not renderable as literal")
-    if any(smh.lit(v) == "set()" for v in pay.values()) or "set()" in start_args:
+    if any(lit(v, style) == "set()" for v in pay.values()) or "set()" in start_args:
         return ok(skip="empty set literal")
-    pat_args = ", ".join(f"{k}={smh.lit(v)}" for k, v in pats.items())
+    pat_args = ", ".join(f"{k}={lit(v, style)}" for k, v in pats.items())
     prio, prio_labels = _prio(case)
     program = f"flow main\n  start XAction({start_args}) as $a\n{prio}  match XAction({pat_args}).Finished()\n  send Hit()\n  match Never()\n"
     state = smh.init(program)
@@ -486,7 +650,8 @@ def _action_args_case(case):
         )
     d = max(depth(P) for P in pats.values())
     zw = ["zero-width-regex"] if any(has_zw(P) for P in pats.values()) else []
-    return ok(nt=d >= 1, labels=["action-args", "match" if expected else "no-match", f"depth{d}"] + zw + prio_labels, view={"start": f"XAction({start_args})", "statement": f"match XAction({pat_args}).Finished()", "matched": got})
+    zw += _string_labels(case)
+    return ok(nt=d >= 1 or "escaped-string" in zw, labels=["action-args", "match" if expected else "no-match", f"depth{d}"] + zw + prio_labels, view={"start": f"XAction({start_args})", "statement": f"match XAction({pat_args}).Finished()", "matched": got})
 
 
 def prop(case):
@@ -495,7 +660,8 @@ def prop(case):
     if case["form"] != "param":
         return _instance_case(case)
     pats, pay = case["pattern"], case["payload"]
-    args = ", ".join(f"{k}={smh.lit(v)}" for k, v in pats.items())
+    style = case.get("style")
+    args = ", ".join(f"{k}={lit(v, style)}" for k, v in pats.items())
     second = case.get("second")
     try:
         expected = all(k in pay and ref_match(P, pay[k]) for k, P in pats.items())
@@ -503,7 +669,7 @@ def prop(case):
     except Unspecified:
         return ok(skip="unspecified: regex vs bool/None")
     if case.get("via_var"):
-        setup = "".join(f"  $v_{k} = {smh.lit(v)}\n" for k, v in pats.items())
+        setup = "".join(f"  $v_{k} = {lit(v, style)}\n" for k, v in pats.items())
         stmt_args = ", ".join(f"{k}=$v_{k}" for k in pats)
     else:
         setup, stmt_args = "", args
@@ -543,7 +709,8 @@ def prop(case):
     # a second, unrelated event must never advance the statement
     d = max(depth(P) for P in pats.values())
     muts = set(case.get("mut", []))
-    nt = d >= 2 or bool(muts & {"drop", "swap", "retype"})
+    slabels = _string_labels(case)
+    nt = d >= 2 or bool(muts & {"drop", "swap", "retype"}) or "escaped-string" in slabels
     labels = ["match" if expected else "no-match", f"depth{d}"] + sorted(muts)
     if case.get("via_var"):
         labels.append("pattern-in-variable")
@@ -553,6 +720,7 @@ def prop(case):
         labels.append("unmentioned-params")
     if any(has_zw(P) for P in pats.values()):
         labels.append("zero-width-regex")
-    labels += prio_labels
+    labels += prio_labels + slabels
     view = {"statement": f"match Ev({args})", "event": repr(event), "matched": got}
     return ok(nt=nt, labels=labels, view=view)
+
